@@ -247,6 +247,18 @@ def rule_size_writers(facts, rid="C08.R2b"):
         else:
             r.bad("size-writers|%s" % adt.split("::")[-1], "`%s.unpacked_size` is written (or lent mutably) outside %s: the size in effect can "
                   "change after it was decided" % (adt.split("::")[-1], " / ".join(only)), adt)
+    # the setter stores its argument, unchanged (the decision which size is in effect is the caller's)
+    sb = pat.body_of(facts, "DecoderState::set_unpacked_size")
+    if sb is not None:
+        r.sites += 1
+        tms = Terms(sb)
+        sts = [tms.of_rvalue(st_.rv, 0) for blk in sb.blocks if not blk.cleanup for st_ in blk.stmts
+               if st_.k == "assign" and st_.place.proj and st_.place.proj[-1][0] == "field" and st_.place.proj[-1][2] == "unpacked_size"]
+        if len(sts) == 1 and sts[0][0] == "arg":
+            r.ok("provenance", {"set_unpacked_size": "stores its argument"})
+        else:
+            r.bad("size-writers|setter", "set_unpacked_size does not store exactly the value it is given (%s): a reset / LZMA2 chunk runs with a "
+                  "different size than the caller decided" % ([flow.show(x)[:60] for x in sts] or "no store"), pat.where(sb))
     return r
 
 
